@@ -88,3 +88,27 @@ Proof. split; vm_compute; reflexivity. Qed.
 Example value_error_damage_repaired :
   out_eqv (last_result [Seed 1 k42i (FBad PValue)] (ws_call [k42i])) (fresh (ws_call [])) = true.
 Proof. vm_compute. reflexivity. Qed.
+
+(* _trf / _tri are not keyed by the valid mask: after a transform whose
+   Distributions object has mask #7 (some radii without data), the public
+   accessor called with valid=None (number 1000: no masking) returns the
+   masked matrices; and a direct masked accessor call after
+   cache_cleanup('inverse') leaves masked matrices that the next transform
+   (all radii valid: number 1005) silently uses *)
+Definition acc_call7 : call :=
+  {| c_pid := 1; c_wid := 1; c_wver := 100; c_fail := 0; c_rmax := 4; c_vid := 7; c_order := 2; c_odd := false;
+     c_fwd := false; c_reg := 0; c_geom := None; c_bd := BNone; c_listing := [] |}.
+Definition acc_get : op := GetBs 4 2 false false 0 1000 BNone [].
+Theorem accessor_mask_refuted :
+  res_code (last_result [Call acc_call7] acc_get) = 0 /\ res_code (fresh acc_get) = 0 /\
+  out_eqv (last_result [Call acc_call7] acc_get) (fresh acc_get) = false.
+Proof. repeat split; vm_compute; reflexivity. Qed.
+
+Definition acc_callok : call :=
+  {| c_pid := 1; c_wid := 0; c_wver := 0; c_fail := 0; c_rmax := 4; c_vid := 1005; c_order := 2; c_odd := false;
+     c_fwd := false; c_reg := 0; c_geom := None; c_bd := BNone; c_listing := [] |}.
+Definition acc_hist : list op := [Call acc_callok; Cleanup CInv; GetBs 4 2 false false 0 7 BNone []].
+Theorem accessor_poisons_transform_refuted :
+  res_code (last_result acc_hist (Call acc_callok)) = 0 /\
+  out_eqv (last_result acc_hist (Call acc_callok)) (fresh (Call acc_callok)) = false.
+Proof. split; vm_compute; reflexivity. Qed.
